@@ -41,14 +41,26 @@ KIND_ERRORS.update({
 ALL_ERRORS = {**KIND_ERRORS, **STRICT_ERRORS}
 
 
+def under(*quals):
+    """Event filter: raised while one of the functions `quals` is on the call stack (the function itself or a helper it calls)."""
+    def f(e):
+        return any(q in e['ctx'] for q in quals)
+    f.wants_event = True
+    return f
+
+
 def uniq_events(it, tags, fn_filter=None):
     seen = set()
     out = []
     for e in it.events:
         if e['tag'] not in tags:
             continue
-        if fn_filter is not None and (e['where'] is None or not fn_filter(e['where'])):
-            continue
+        if fn_filter is not None:
+            if getattr(fn_filter, 'wants_event', False):
+                if not fn_filter(e):
+                    continue
+            elif e['where'] is None or not fn_filter(e['where']):
+                continue
         k = (e['tag'], id(e['node']))
         if k in seen:
             continue
